@@ -73,6 +73,12 @@ def make(fam, theta, as_int=False):
         return m
     if int(abs(float(theta)) * 7919) % 2:
         other = {'Clayton': 2.5, 'Gumbel': 3.0, 'Frank': -4.0 if theta > 0 else 6.0}[fam]
+        if int(abs(float(theta)) * 1299709) % 2:
+            # ... and before that it was fitted to data (concordant columns: admissible for every family)
+            try:
+                m.fit(np.column_stack([np.linspace(0.1, 0.9, 9), np.array([0.15, 0.1, 0.3, 0.45, 0.4, 0.6, 0.8, 0.7, 0.95])]))
+            except Exception:
+                pass
         m.theta = other
         m.tau = float(tau_of(fam, other))
         pts = np.array([[0.3, 0.6], [0.8, 0.1], [0.5, 0.5]])
